@@ -1,9 +1,9 @@
 package main
 
 import (
-	"strings"
 	"encoding/json"
 	"fmt"
+	"strings"
 
 	"github.com/dcaiafa/lox/verif/internal/cfgref"
 	"github.com/dcaiafa/lox/verif/internal/ctypes"
